@@ -363,7 +363,9 @@ func oracleC03(e *Env, st *OracleState, i int, op *Op, res string) *Violation {
 	if err != nil {
 		return &Violation{Prop: "C03", Key: "C03:table-outside-file", What: err.Error(), Op: i}
 	}
-	if h.DOff < 128 || h.DOff+h.DSize > h.DataOff || h.DSize < 585*h.Total {
+	// (the table usually precedes the data section; another writer may put it behind: it must not
+	// overlap the header or the data section)
+	if h.DOff < 128 || (h.DOff+h.DSize > h.DataOff && h.DOff < h.DataOff+h.DataSize) || h.DSize < 585*h.Total {
 		return &Violation{Prop: "C03", Key: "C03:table-placement", What: fmt.Sprintf("table [%d,+%d) vs data offset %d, total %d", h.DOff, h.DSize, h.DataOff, h.Total), Op: i}
 	}
 	type reg struct {
